@@ -35,11 +35,14 @@ def run(ctx):
     ctx.rule("C11.D1", "sender side: counter before state read; handed to CounterTask before release; re-check + release after enqueue; counter changed only by RAII pairs")
     ctx.rule("C11.D2", "writer side: start_blocking before polling; PreSwitch only after blocking_done; drop releases iff previous count == 1; blocking_done = (counter == 0)")
     ctx.rule("C11.D3", "all atomic operations of the barrier use SeqCst")
+    ctx.rule("C11.D5", "one barrier per backend: a queue handed out by BlockingMap::get_or_create is always the one registered in the map (a newly created queue replaces the stale entry unconditionally); the packed (count, term) word is updated by a compare-exchange loop that recomputes the new value from the value it read in the same iteration")
     ctx.rule("C11.D4", "hint decision table: state x hint x term ordering", exhaustive=True)
     _send(ctx)
     _raii(ctx)
     _writer(ctx)
     _orderings(ctx)
+    _registry(ctx)
+    _cas_loops(ctx)
 
 
 def _send_body(F):
@@ -283,3 +286,86 @@ def _orderings(ctx):
                 ctx.check(bool(flat) and all(x == "SeqCst" for x in flat), "C11.D3", "seqcst:%s:%s#%d" % (b.path.split("::{")[0].replace("proxy::blocking::", "").replace("common::", ""), atomic_method(t), n), site(b, bb),
                           ok="SeqCst", bad="atomic %s uses ordering %s: the store-buffering pattern between sender and barrier is only correct under SeqCst" % (atomic_method(t), flat))
     ctx.floor("C11.D3", "atomic operations of the barrier", n, 8)
+
+
+def _registry(ctx):
+    """the sender of the command path and the migration task's controller must share one TaskBlockingQueue per backend
+    address, otherwise blocking_done() is true while commands still run on the other queue.  Structural condition: in
+    get_or_create every queue returned from create_ctrl was stored in the map by an unconditional insert before the
+    return (or_insert* keeps a dead Weak and hands out an unregistered queue)"""
+    F = ctx.F
+    b = F.one("proxy::blocking::BlockingMap::get_or_create")
+    if b is None:
+        ctx.lost("C11.D5", "get_or_create", "BlockingMap::get_or_create not found")
+        return
+    ctx.analysed(b)
+    du = DefUse(b)
+    cr = calls_to(b, "BlockingMap::create_ctrl")
+    if not ctx.floor("C11.D5", "create_ctrl calls in get_or_create", len(cr), 1):
+        return
+    ins = []
+    for bb, t in b.calls():
+        c = callee_of(t) or ""
+        last = c.rsplit("::", 1)[-1]
+        if last == "insert" and ("dashmap" in c or "DashMap" in c or "Entry" in c or "HashMap" in c):
+            if any(du.slice_operand(a).has_call("create_ctrl") for a in t["args"][1:]):
+                ins.append(bb)
+    rets = set(b.return_blocks())
+    for n, (bb, t) in enumerate(cr):
+        esc = cfg.path_between(b, bb, next(iter(rets)), avoid=set(ins)) if rets else None
+        esc_any = None
+        for r in rets:
+            pth = cfg.path_between(b, bb, r, avoid=set(ins))
+            if pth is not None:
+                esc_any = pth
+        ctx.check(bool(ins) and esc_any is None, "C11.D5", "created-queue-is-registered#%d" % n, site(b, bb), ok="every path from create_ctrl to the return stores the new queue's Weak with insert()",
+                  bad="a queue created by create_ctrl can be returned without being stored by an unconditional insert (or_insert keeps a dead entry): the caller gets an unregistered queue, the next caller another one, and the blocking barrier no longer sees the commands running on the first")
+    ups = calls_to(b, "Weak::upgrade")
+    ctx.check(bool(ups), "C11.D5", "live-entry-reused", site(b), ok="an entry that is still alive is reused (upgrade)", bad="existing queues are never reused: every caller gets its own queue")
+
+
+def _cas_loops(ctx):
+    """compare-exchange retry loops: the value installed must be computed, in the same iteration, from the value the
+    loop read in that iteration (a load inside the loop or the Err(current) of the failed compare-exchange).  A new value
+    computed once before the loop is installed over a concurrent update on the retry: an update of (count, term) is lost"""
+    F = ctx.F
+    n = 0
+    for b in F.all_bodies(bins=False):
+        if b.is_mock() or b.kind == "Promoted" or "tests::" in b.path or not b.path.startswith(("common::biatomic", "proxy::blocking", "<proxy::blocking")):
+            continue
+        cas = [(bb, t) for bb, t in b.calls() if (callee_of(t) or "").rsplit("::", 1)[-1] in ("compare_exchange", "compare_exchange_weak", "compare_and_swap")]
+        if not cas:
+            continue
+        du = DefUse(b)
+        loops = cfg.natural_loops(b)
+        for bb, t in cas:
+            inl = [cfg.loop_blocks(b, t_, h) for t_, h in loops if bb in cfg.loop_blocks(b, t_, h)]
+            if not inl:
+                continue
+            n += 1
+            ctx.analysed(b)
+            lb = min(inl, key=len)
+            new_op = t["args"][2]
+            pl = new_op.get("mv") or new_op.get("cp")
+            fresh = False
+            if pl is not None:
+                # every definition chain of the new value inside the loop, fed by a read made inside the loop
+                # follow plain copies back to the statement / call that computes the value: it must sit inside the loop
+                cur = pl["l"]
+                seen = set()
+                producers = []
+                work = [cur]
+                while work:
+                    l = work.pop()
+                    if l in seen:
+                        continue
+                    seen.add(l)
+                    for d in du.defs.get(l, []):
+                        if d[0] == "assign" and d[3]["rv"]["k"] == "use" and (d[3]["rv"]["a"].get("cp") or d[3]["rv"]["a"].get("mv")) and not (d[3]["rv"]["a"].get("cp") or d[3]["rv"]["a"].get("mv"))["p"]:
+                            work.append((d[3]["rv"]["a"].get("cp") or d[3]["rv"]["a"].get("mv"))["l"])
+                        elif d[0] in ("assign", "call"):
+                            producers.append(d[1])
+                fresh = bool(producers) and all(x in lb for x in producers)
+            ctx.check(fresh, "C11.D5", "cas-new-value-recomputed:%s" % b.path.split("::{")[0], site(b, bb), ok="the new value is recomputed in every iteration from a value read in that iteration",
+                      bad="the value installed by compare_exchange is not recomputed inside the retry loop from a fresh read: after a lost race the stale new value overwrites the concurrent update (one start_blocking / release is lost)")
+    ctx.floor("C11.D5", "compare-exchange retry loops in the barrier code", n, 1)
